@@ -198,7 +198,9 @@ class FabricRun(object):
         elif kind == 'clear':
           f.clear()
           for s in self.subs:
-            s['cleared'] = True
+            if not s.get('cleared'):
+              s['cleared'] = True
+              s['cleared_at'] = sim.seq
         elif kind == 'is_alive':
           truth_before = self.kernel_alive()
           r = f.is_alive()
